@@ -117,8 +117,8 @@ func init() {
 		gen: func(t *scen.Tape, i int, tier string) *scen.Scenario { return scen.GenHTML(t) }}
 	props["C11"] = crawlProp("exploration", crawlRule+"; at every stage boundary the item tree handed to the hook is re-checked for well-formedness with public getters, and at the finisher's decision 'complete' is compared with 'no node awaits fetching or post-processing'", 200, 8000, scen.CrawlOpts{Prop: "C11", MinSeeds: 1, MaxSeeds: 8, Faults: true, Hops: true, Adversarial: true})
 	props["C17"] = crawlProp("exploration", crawlRule+"; at idle and after stop the metrics (total URLs crawled, finished seeds, worker gauges, mean response time) are compared with ground truth counted from hook events", 200, 6000, scen.CrawlOpts{Prop: "C17", MinSeeds: 1, MaxSeeds: 8, Faults: true, Hops: true})
-	props["C08"] = crawlProp("exploration", crawlRule+"; every seen-store check is judged against a reference model of completed records (stamped with scheduler steps)", 200, 6000, scen.CrawlOpts{Prop: "C08", MinSeeds: 2, MaxSeeds: 8, Faults: false, Hops: true, Adversarial: true})
-	props["C09"] = crawlProp("exploration", crawlRule+"; every canonical URL that flows through a crawl is re-rendered under other map-iteration orders, re-normalised and shape-checked", 200, 6000, scen.CrawlOpts{Prop: "C09", MinSeeds: 2, MaxSeeds: 8, Hops: true, Adversarial: true})
+	props["C08x"] = crawlProp("exploration", crawlRule+"; every seen-store check is judged against a reference model of completed records (stamped with scheduler steps)", 200, 6000, scen.CrawlOpts{Prop: "C08", MinSeeds: 2, MaxSeeds: 8, Faults: false, Hops: true, Adversarial: true})
+	props["C09x"] = crawlProp("exploration", crawlRule+"; every canonical URL that flows through a crawl is re-rendered under other map-iteration orders, re-normalised and shape-checked", 200, 6000, scen.CrawlOpts{Prop: "C09", MinSeeds: 2, MaxSeeds: 8, Hops: true, Adversarial: true})
 	props["C12"] = &propDef{level: "exploration", assumptions: compAssumptions, quickRuns: 32, thorRuns: 600,
 		components: map[string]string{"internal/pkg/reactor": "real code with hook points (build tag verif)", "producers, consumers, freeze controller": "simulated client actors", "scheduler, select tie-breaks": "owned by the simulator"},
 		rule:       "one case = one bubble: 1-5 tokens, 1-3 producers, 1-3 consumers (answering each delivered seed with finish, repeated finish, feedback, or feedback for an unknown id), optional freeze at a scheduled point; all operations, schedule decisions and select tie-breaks drawn from one tape; distinct = distinct event-log hash; every case interleaves >= 2 actors, so all count as non-trivial",
@@ -136,6 +136,33 @@ func init() {
 		rule:       "one case = one bubble: capacity in {1,2,5,20,150}, configured rate in {0.05..50}/s, 1-3 hosts, 1-4 concurrent waiters doing sequences of acquire / failure(429,403,408,425,500,503) / success with gaps from 0 to 10 simulated minutes, plus a class with failure streaks of 30-80; distinct = distinct event-log hash",
 		planFn: func(p *propDef, tier string, seed uint64, n int) []*Case {
 			return compCases("C13", "ratelimiter", n, 60, seed, nil)
+		}}
+	c09crawl := props["C09x"]
+	delete(props, "C09x")
+	props["C09"] = &propDef{level: "exploration", quickRuns: 60, thorRuns: 2000,
+		assumptions: append([]string{"only the determinism clause is decided by simulation proper (the simulator owns map iteration order through the runtime overlay); idempotence, shape, relative resolution and query order are sampled by the URL grammar, with no claim of input-space coverage beyond the counts reported"}, e2eAssumptions...),
+		components:  map[string]string{"internal/pkg/preprocessor.NormalizeURL, pkg/models.URL (String/URLToString/encodeQuery), goada (WHATWG parser, cgo)": "real", "map iteration order": "owned by the simulator (runtime overlay, SimSetBias)", "pipeline cases": "as for C01"},
+		rule:        "component cases: one bubble = 12-24 (URL text, parent) pairs from a grammar (schemes, hosts incl. IDN/ports/userinfo/loopback, paths with dot segments and escapes, well-formed and malformed queries, fragments, quotes, relative references), each normalised in fresh objects under 7 different simulator-chosen map iteration orders, re-normalised, shape-checked, compared with net/url reference resolution and with the original parameter order; pipeline cases: as for C01 with every canonical URL cross-checked; distinct = distinct event-log hash (pipeline) or distinct tape (component)",
+		planFn: func(p *propDef, tier string, seed uint64, n int) []*Case {
+			cases := compCases("C09", "norm", max(2, n/6), 120, seed, nil)
+			for _, c := range c09crawl.plan(tier, seed, n) {
+				c.Idx = len(cases)
+				cases = append(cases, c)
+			}
+			return cases
+		}}
+	c08crawl := props["C08x"]
+	delete(props, "C08x")
+	props["C08"] = &propDef{level: "exploration", quickRuns: 120, thorRuns: 4000, assumptions: append([]string{"crawl-HQ seencheck is exercised by the HQ cases of C15; this check covers the local seen-store"}, e2eAssumptions...),
+		components: map[string]string{"internal/pkg/preprocessor/seencheck (real leveldb store in a scratch directory)": "real", "checkers": "component cases: 2-4 simulated preprocess-shaped actors; pipeline cases: the real preprocessor workers", "pkg/models (DedupeItems, URL.String)": "real"},
+		rule:       "component cases: one bubble = 2-4 concurrent checkers running SeencheckItem on trees (seed, assets, redirect target) drawn from a pool of overlapping URL texts (case variants, permuted and repeated query parameters, equivalent escapes), scheduled at the hook points around lookup and record; pipeline cases: as for C01; every check is judged against a reference set of completed records stamped with scheduler steps; distinct = distinct event-log hash",
+		planFn: func(p *propDef, tier string, seed uint64, n int) []*Case {
+			cases := compCases("C08", "seen", max(2, n/10), 100, seed, nil)
+			for _, c := range c08crawl.plan(tier, seed, n) {
+				c.Idx = len(cases)
+				cases = append(cases, c)
+			}
+			return cases
 		}}
 	_ = fmt.Sprint
 }
